@@ -313,3 +313,121 @@ Lemma C14_nonvacuous_lemma :
                                 (s "a.proto", SFlatten); (s "a.proto", SOneofDiscriminator); (s "a.proto", SHttp); (s "a.proto", SHttpBinding); (s "a.proto", SHttpConfig)] /\
   client_has nv14 (s "p.Nums") CInt64 = true /\ client_has nv14 (s "p.Person.Inner") CNullable = true.
 Proof. vm_compute. repeat split; reflexivity. Qed.
+
+(* ================================ C12: the colliding sibling may be any kind of field ================== *)
+Lemma or_else_not_none_r {B} (a b : option B) : b <> None -> or_else a b <> None.
+Proof. destruct a; cbn; [discriminate|auto]. Qed.
+Lemma or_else_not_none_l {B} (a b : option B) : a <> None -> or_else a b <> None.
+Proof. destruct a; cbn; [discriminate|congruence]. Qed.
+
+(* the discriminator collides with ANY field of the message outside the oneof: cardinality, proto3 optional
+   (synthetic oneof) and membership in another oneof (annotated or not) make no difference *)
+Lemma C12_disc_collision_any_sibling_lemma : forall sc m o f,
+  In o (m_oneofs m) -> oneof_configured o = true -> In f (m_fields m) -> in_oneof o f = false ->
+  json_name (f_name f) = o_discriminator o ->
+  oneof_msg_check sc m <> None /\ In (viol RDiscriminatorCollision (o_name o)) (message_violations sc m).
+Proof.
+  intros sc m o f Ho C Hf NI E.
+  assert (In f (outside_fields m o)) as Out by (apply filter_In; split; [exact Hf|now rewrite NI]).
+  split.
+  - unfold oneof_msg_check. apply first_some_not_none with (x := o); [exact Ho|].
+    unfold oneof_check. rewrite C. apply or_else_not_none_l. unfold disc_collision_check.
+    apply first_some_not_none with (x := f); [exact Out|].
+    cbv beta. rewrite E, str_eqb_refl. discriminate.
+  - apply in_message_oneof with (o := o); [exact Ho|]. unfold oneof_part. rewrite C. apply in_or_app. left.
+    apply in_when. split; [|reflexivity].
+    apply mem_str_in. rewrite <- E. apply in_map_iff. now exists f.
+Qed.
+
+(* a child of a flattened variant collides with ANY field outside the oneof *)
+Lemma C12_flat_child_collision_any_sibling_lemma : forall sc m o f v c,
+  In o (m_oneofs m) -> oneof_configured o = true -> o_flatten o = true ->
+  In f (m_fields m) -> in_oneof o f = false ->
+  In v (variants m o) -> In c (kind_children sc (f_kind v)) -> snd c = json_name (f_name f) ->
+  oneof_msg_check sc m <> None /\ In (viol ROneofFlattenChildCollision (o_name o)) (message_violations sc m).
+Proof.
+  intros sc m o f v c Ho C Fl Hf NI Hv Hc E.
+  assert (mem_str (snd c) (reserved_names m o) = true) as R.
+  { apply mem_str_in. unfold reserved_names. right. rewrite E. apply in_map_iff. exists f. split; [reflexivity|].
+    apply filter_In. split; [exact Hf|now rewrite NI]. }
+  split.
+  - unfold oneof_msg_check. apply first_some_not_none with (x := o); [exact Ho|].
+    unfold oneof_check. rewrite C, Fl. apply or_else_not_none_r. unfold oneof_flatten_check. apply or_else_not_none_r.
+    apply first_some_not_none with (x := v); [exact Hv|]. cbv beta.
+    apply first_some_not_none with (x := c); [exact Hc|]. cbv beta. rewrite R. discriminate.
+  - apply in_message_oneof with (o := o); [exact Ho|]. unfold oneof_part. rewrite C, Fl.
+    apply in_or_app. right. apply in_or_app. right. apply in_when. split; [|reflexivity].
+    apply existsb_exists. exists v. split; [exact Hv|]. apply existsb_exists. exists c. now split.
+Qed.
+
+(* a flattened child collides with ANY non-flattened field of the message *)
+Lemma C12_flatten_collision_any_sibling_lemma : forall sc m f g c,
+  (forall x, In x (m_fields m) -> flatten_field_check m x = None) ->
+  In f (m_fields m) -> is_flatten f = false ->
+  In g (m_fields m) -> well_formed_flatten g = true -> In c (kind_children sc (f_kind g)) ->
+  flatten_prefix g ++ snd c = json_name (f_name f) ->
+  flatten_msg_check sc m <> None /\ In (viol RFlattenCollision (f_name g)) (message_violations sc m).
+Proof.
+  intros sc m f g c OK Hf NF Hg WF Hc E.
+  assert (In (f_name g, fst c, flatten_prefix g ++ snd c) (spec_flattened sc m)) as I.
+  { unfold spec_flattened, names_of. apply in_flat_map. exists g. split; [apply filter_In; auto|].
+    apply in_map_iff. now exists c. }
+  assert (mem_str (flatten_prefix g ++ snd c) (parent_json_names m) = true) as P.
+  { apply mem_str_in. rewrite E. unfold parent_json_names. apply in_map_iff. exists f. split; [reflexivity|].
+    apply filter_In. split; [exact Hf|now rewrite NF]. }
+  assert (has_flatten m = true) as HF.
+  { unfold has_flatten. apply existsb_exists. exists g. split; [exact Hg|].
+    unfold well_formed_flatten in WF. destruct (is_flatten g); [reflexivity|discriminate]. }
+  split.
+  - intros N. destruct (flatten_msg_none sc m N) as [_ CP]. unfold collision_part in CP.
+    rewrite flat_map_nil in CP. specialize (CP _ I). cbn [snd fst] in CP. rewrite P in CP. discriminate.
+  - rewrite message_violations_parts. do 3 (apply in_or_app; right). apply in_or_app. left.
+    unfold collision_part. apply in_flat_map. eexists. split; [exact I|]. cbn [snd fst]. rewrite P. now left.
+Qed.
+
+(* concrete instances: the sibling named like the discriminator is a proto3 optional field / a member of a second
+   plain oneof / a member of a second annotated oneof / a map *)
+Definition w_sibling (sib : list field) (extra : list oneof) : schema :=
+  [pfile "a.proto" true
+     [res_msg; addr_msg;
+      msg ["Event"] (fld "id" 1 KString Singular :: sib ++ [in_oneof_named "content" (fld "text" 10 (KMessage (s "p.Addr")) Singular)])
+          ({| o_name := s "content"; o_has_cfg := true; o_discriminator := s "kind"; o_flatten := true |} :: extra)] [] [svc [ping]]].
+Definition plain_oneof : oneof := {| o_name := s "other"; o_has_cfg := false; o_discriminator := []; o_flatten := false |}.
+Definition annotated_oneof : oneof := {| o_name := s "other"; o_has_cfg := true; o_discriminator := s "d2"; o_flatten := false |}.
+Definition refused (sc : schema) : option (err_class * err_class) :=
+  match go_http_accepts sc, go_client_accepts sc with
+  | Some e, Some e' => Some (e_class e, e_class e')
+  | _, _ => None
+  end.
+Lemma C12_sibling_kinds_lemma :
+  refused (w_sibling [fld "kind" 2 KString Optional] []) = Some (EDiscCollision, EDiscCollision) /\
+  refused (w_sibling [fld "kind" 2 (KMessage (s "p.Addr")) Optional] []) = Some (EDiscCollision, EDiscCollision) /\
+  refused (w_sibling [in_oneof_named "other" (fld "kind" 2 KString Singular)] [plain_oneof]) = Some (EDiscCollision, EDiscCollision) /\
+  refused (w_sibling [in_oneof_named "other" (fld "kind" 2 KString Singular)] [annotated_oneof]) = Some (EDiscCollision, EDiscCollision) /\
+  refused (w_sibling [fld "kind" 2 KString (MapOf KString)] []) = Some (EDiscCollision, EDiscCollision) /\
+  refused (w_sibling [fld "street" 2 KString Optional] []) = Some (EOneofFlatChildCollision, EOneofFlatChildCollision) /\
+  refused (w_sibling [in_oneof_named "other" (fld "zip_code" 2 KInt32 Singular)] [annotated_oneof]) = Some (EOneofFlatChildCollision, EOneofFlatChildCollision) /\
+  defects_C12 (w_sibling [fld "kind" 2 KString Optional] []) = [] /\
+  go_http_accepts (w_sibling [fld "kinds" 2 KString Optional; in_oneof_named "other" (fld "kind_b" 3 KString Singular)] [annotated_oneof]) = None.
+Proof. vm_compute. repeat split; reflexivity. Qed.
+
+(* ================================ C14: nested declarations =========================================== *)
+(* message Event { Timestamp created_at = 1 [UNIX_SECONDS]; message Occurrence { Timestamp at = 1 [UNIX_MILLIS];
+   message Detail { Timestamp seen = 1 [DATE]; } } }  message Audit { message Entry { Timestamp at = 1 [UNIX_MILLIS]; } } *)
+Definition ts_field (n : string) (t : ts_fmt) : field := with_tsfmt t (fld n 1 (KMessage (s "google.protobuf.Timestamp")) Singular).
+Definition w_nested : schema :=
+  [pfile "a.proto" true
+     [res_msg;
+      msg ["Event"] [ts_field "created_at" TFUnixSeconds] [];
+      msg ["Event"; "Occurrence"] [ts_field "at" TFUnixMillis] [];
+      msg ["Event"; "Occurrence"; "Detail"] [ts_field "seen" TFDate] [];
+      msg ["Audit"] [fld "id" 1 KString Singular] [];
+      msg ["Audit"; "Entry"] [ts_field "at" TFUnixMillis] []] [] [svc [ping]]].
+Lemma C14_nested_declarations_lemma :
+  forall f, In f (gen_files w_nested) ->
+    client_contexts w_nested f CTimestamp = [s "p.Event"; s "p.Event.Occurrence"; s "p.Event.Occurrence.Detail"; s "p.Audit.Entry"] /\
+    http_contexts w_nested f CTimestamp = client_contexts w_nested f CTimestamp /\
+    context_types false w_nested f CTimestamp = [s "Event"; s "Event_Occurrence"; s "Event_Occurrence_Detail"; s "Audit_Entry"] /\
+    context_types true w_nested f CTimestamp = context_types false w_nested f CTimestamp /\
+    defects_C14 w_nested = [].
+Proof. intros f [<-|[]]. vm_compute. repeat split; reflexivity. Qed.
